@@ -39,3 +39,20 @@ pub fn c14_node_state_independent_of_id() {
     assert!(b.get_id() == a.get_id() + 1, "ids are consecutive for sequential allocation");
     kani::cover!(true, "reached end");
 }
+
+/// 200 sequential allocations: ids strictly increasing (no reuse at any block / wrap boundary up to 200)
+#[kani::proof]
+#[kani::unwind(203)]
+pub fn c14_node_ids_unique_200() {
+    let first = Node::new(0);
+    let mut prev = first.get_id();
+    let mut i = 0;
+    while i < 200 {
+        let n = Node::new(i);
+        assert!(n.get_id() > prev, "a node id was handed out twice or went backwards");
+        prev = n.get_id();
+        i += 1;
+    }
+    assert!(prev == first.get_id() + 200, "sequential allocation must advance by exactly one per node");
+    kani::cover!(true, "reached end");
+}
